@@ -63,6 +63,25 @@ class RunnerTimeout(Exception):
     pass
 
 
+class RunnerCpuExhausted(RunnerTimeout):
+    """The command did not return although the runner process itself consumed `cpu` seconds of CPU
+    time on it (a load-independent bound, unlike the wall-clock watchdog)."""
+
+    def __init__(self, cpu):
+        super().__init__(f"no answer after {cpu:.0f} s of CPU time")
+        self.cpu = cpu
+
+
+def proc_cpu_seconds(pid):
+    """user+system CPU time of a process (all threads) from /proc, in seconds"""
+    try:
+        f = open(f"/proc/{pid}/stat").read()
+        rest = f[f.rindex(")") + 2:].split()
+        return (int(rest[11]) + int(rest[12])) / os.sysconf("SC_CLK_TCK")
+    except Exception:
+        return None
+
+
 def die_with_parent():
     """Linux: SIGKILL this process when its parent dies (a killed check must not leave pool
     workers or runners behind)."""
@@ -88,16 +107,29 @@ class Runner:
                                   stderr=subprocess.PIPE, env=e, bufsize=0, preexec_fn=die_with_parent)
         self.buf = b""
 
-    def cmd(self, obj, timeout=60.0):
+    def cmd(self, obj, timeout=60.0, cpu_budget=None, wall_max=1800.0):
+        """cpu_budget: when the wall-clock watchdog fires, keep waiting until the runner process has
+        itself burnt `cpu_budget` CPU-seconds on this command (-> RunnerCpuExhausted, a verdict that
+        does not depend on machine load) or `wall_max` seconds passed (-> RunnerTimeout)."""
+        cpu0 = proc_cpu_seconds(self.p.pid) if cpu_budget else None
         try:
             self.p.stdin.write((json.dumps(obj) + "\n").encode())
             self.p.stdin.flush()
         except (BrokenPipeError, OSError):
             raise RunnerDied(self.p.poll(), self._stderr())
-        deadline = time.time() + timeout
+        t_start = time.time()
+        deadline = t_start + timeout
         while b"\n" not in self.buf:
             left = deadline - time.time()
             if left <= 0:
+                if cpu_budget and cpu0 is not None and time.time() - t_start < wall_max:
+                    used = proc_cpu_seconds(self.p.pid)
+                    if used is not None and used - cpu0 >= cpu_budget:
+                        self.kill()
+                        raise RunnerCpuExhausted(used - cpu0)
+                    if used is not None:
+                        deadline = time.time() + 5.0
+                        continue
                 self.kill()
                 raise RunnerTimeout()
             r, _, _ = select.select([self.p.stdout], [], [], min(left, 1.0))
@@ -358,6 +390,64 @@ def run_sentinels(rep, fn):
                 rep.add_violation(Violation(sig, what, w))
         except Exception as e:   # a broken sentinel is inconclusive, never a violation
             rep.inc(f"sentinel {k['sentinel_file']}: {type(e).__name__}: {e}"[:80])
+    run_regressions(rep, fn)
+
+
+def sql_expect(w):
+    """Generic regression witness {kind: "sql-expect", setup, sql, expect: rows | "error", engines, signature}:
+    the statement must return exactly these rows (as a multiset of normalised cells) / must fail."""
+    from sqlcase import RL, ms
+    out = []
+    for engine in w.get("engines", ["mem", "disk"]):
+        rl = RL(engine)
+        try:
+            for st in w.get("setup", []):
+                rl.sql(st)
+            r = rl.sql(w["sql"], timeout=w.get("timeout", 60.0))
+            if w["expect"] == "error":
+                if r["ok"]:
+                    out.append((w["signature"], f"[{engine}] {w['sql'][:200]}: expected an error, returned {r['rows'][:4]}"))
+            elif not r["ok"]:
+                out.append((w["signature"], f"[{engine}] {w['sql'][:200]}: expected {w['expect'][:4]}, failed: {r.get('kind')} {r.get('err', '')[:120]} {r.get('panics')}"))
+            else:
+                want = ms([tuple(x) for x in w["expect"]])
+                if ms(r["rows"]) != want:
+                    out.append((w["signature"], f"[{engine}] {w['sql'][:200]}: expected {want[:4]}, returned {ms(r['rows'])[:4]}"))
+        finally:
+            rl.close()
+    return out
+
+
+def _regress_one(args):
+    fn, path = args
+    try:
+        w = json.load(open(path))
+        w = w.get("witness", w)
+        if w.get("kind") == "sql-expect":
+            return path, [(sig, what, w) for sig, what in sql_expect(w)], None
+        return path, [(sig, what, w) for sig, what in fn(w)], None
+    except Exception as e:
+        return path, [], f"{type(e).__name__}: {e}"
+
+
+def run_regressions(rep, fn):
+    """Regression corpus: concrete witnesses of defects that were repaired (findings/regress/<prop>-*.json,
+    committed; never written at run time). They are re-run on every invocation and whatever they show
+    goes through the normal classification - nothing is suppressed, so a repaired defect that comes
+    back is a VIOLATION again even when the random workload does not happen to rebuild the case."""
+    import glob
+    paths = sorted(glob.glob(os.path.join(VERIF, "findings", "regress", f"{rep.prop}-*.json")))
+    if not paths:
+        return
+    fired = 0
+    for path, vs, err in parallel_map(_regress_one, [(fn, p) for p in paths]):
+        if err:
+            rep.inc(f"regression witness {os.path.basename(path)}: {err}"[:90])
+        for sig, what, w in vs:
+            fired += 1
+            rep.add_violation(Violation(sig, "[regression witness " + os.path.basename(path) + "] " + what, w))
+    rep.coverage["regression_witnesses_rerun"] = len(paths)
+    rep.coverage["regression_witnesses_fired"] = fired
 
 
 def parallel_map(fn, items, workers=None):
